@@ -905,6 +905,18 @@ func grdFunction(c *Ctx, r *Report, rule string, fn *ssa.Function, st *grdStats)
 				}
 				base, lo, hi, kind = x.X, x.Low, x.High, "slice"
 			case *ssa.MakeSlice:
+				if gc := p.val(x.Cap).add(p.val(x.Len), -1); x.Cap != x.Len && !(gc.isConst() && gc.c >= 0) {
+					p.invariants()
+					ok, why := p.prove(gc, p.facts(b))
+					desc := "make cap " + p.sy.expr(x.Cap).String()
+					if ok {
+						st.proven++
+						r.holds(rule, where, desc, c.pos(ins.Pos()), "capacity is at least the length ("+why+")")
+					} else {
+						st.violated++
+						r.violated(rule, where, desc, c.pos(ins.Pos()), "cannot prove the make capacity "+p.str(gc)+" >= 0 over the length: a capacity taken from unchecked input panics when negative (and allocates without bound when huge)")
+					}
+				}
 				g := p.val(x.Len)
 				if g.isConst() {
 					continue
